@@ -17,6 +17,7 @@ EXPLANATION = (
     " C05.P1 also: no builder returns (a copy of) its input container unwalked. C05.P2 also: the hashed text is the [\"salt\", name, value] template with serde's JSON encoding of the unmodified member name (rule shared with C01.e)."
     " C05.P3 finds the always-visible keys by role: what is removed from the claims map before the marking call and put back after it (constant array, per-key calls, loop or pipeline; in the entry or the assembly helper; the payload map may be a local moved into the field). C05.P5 interprets the continuation test (closure or named helper) over the classes of the remainder."
     " C05.P6: an issuance emits the disclosures it created: all_disclosures is re-initialised by every issuance before it is read or appended to (the field-flow rule of C11.S / C14.S6), so every issued disclosure is referenced by a digest of this payload."
+    " C05.P1 child-accounted: every iteration of a builder's walk passes the recursive marker and the claims are iterated without a filtering / skipping / reordering adaptor, so every member and element reaches the payload (visible or as a disclosure)."
 )
 ASSUMPTIONS = [
     "serde_json::Map / Vec insert and push place a value exactly once; indexmap preserves insertion order",
